@@ -136,9 +136,16 @@ pub fn advance_secs(max: u32, cfg: &WorldCfg) -> BoxedStrategy<u32> {
     if max > week {
         opts.push((2, (week..max).boxed()));
         // around re-issue margins of signed objects
-        let roa_edge = (cfg.roa_valid_weeks.saturating_sub(cfg.roa_reissue_weeks)) * week;
-        if roa_edge > 3600 && roa_edge < max {
-            opts.push((2, (roa_edge - 3600..roa_edge + 3600).boxed()));
+        for (valid, margin) in [
+            (cfg.roa_valid_weeks, cfg.roa_reissue_weeks),
+            (cfg.aspa_valid_weeks, cfg.aspa_reissue_weeks),
+            (cfg.bgpsec_valid_weeks, cfg.bgpsec_reissue_weeks),
+            (cfg.child_valid_weeks, cfg.child_reissue_weeks),
+        ] {
+            let edge = valid.saturating_sub(margin) * week;
+            if edge > 3600 && edge < max {
+                opts.push((2, (edge - 3600..edge + 3600).boxed()));
+            }
         }
     }
     let max = max.max(2);
@@ -280,7 +287,13 @@ pub fn cfg_strategy(disk: BoxedStrategy<bool>, wide_timing: bool) -> BoxedStrate
     let publish = (2u32..49).prop_flat_map(|next| (Just(next), 0u32..=(next / 2), 1u32..next));
     let weeks = move || {
         if wide_timing {
-            (2u32..60).prop_flat_map(|valid| (Just(valid), 1u32..valid)).boxed()
+            // any margin below the lifetime; or a margin one to three weeks below it, so that a
+            // clock advance of a few weeks carries an object into its re-issue margin
+            prop_oneof![
+                3 => (2u32..60).prop_flat_map(|valid| (Just(valid), 1u32..valid)),
+                2 => (2u32..40, 1u32..4).prop_map(|(valid, d)| (valid, valid.saturating_sub(d).max(1))),
+            ]
+            .boxed()
         } else {
             prop_oneof![3 => Just((52u32, 4u32)), 1 => (8u32..60).prop_flat_map(|valid| (Just(valid), 1u32..valid.min(8)))].boxed()
         }
@@ -288,7 +301,11 @@ pub fn cfg_strategy(disk: BoxedStrategy<bool>, wide_timing: bool) -> BoxedStrate
     // aspa / bgpsec margins may equal or exceed lifetimes (krill allows it)
     let loose = move || {
         if wide_timing {
-            (2u32..60, 1u32..70).boxed()
+            prop_oneof![
+                3 => (2u32..60, 1u32..70),
+                2 => (2u32..40, 1u32..4).prop_map(|(valid, d)| (valid, valid.saturating_sub(d).max(1))),
+            ]
+            .boxed()
         } else {
             Just((52u32, 4u32)).boxed()
         }
